@@ -2,7 +2,12 @@ package main
 
 // C01 - every input line is read exactly once and classified exactly once.
 //   c01 trace  : seeded random scenarios on the real pipeline (files, FIFOs, scripted stdin readers,
-//                timer flush), events written for Pipeline_Trace.tla (B2)
+//                timer flush), events written for Pipeline_Trace.tla (B2); two further corpus families:
+//                "geometry" (PipelineBuf.tla: fixed-width lines dividing the 128 KiB read buffer, sizes
+//                k x 128 KiB +- a few lines, workers that start late, so that a buffer fill ends exactly
+//                on a line boundary while the pipeline still holds lines of that buffer) and "gunzip"
+//                (PipelineIO.tla: plain and gzip files mixed under -z, plain sizes below / at / above the
+//                4096-byte window gzip.NewReader consumes before it falls back)
 //   c01 cli    : the real `rare filter` binary on generated corpora; summary line and stdout keys
 //                written as `sum` records (B2)
 //   c01 replay : TLC-generated behaviours of Pipeline.tla (feed order, timer ticks, consumer pace)
@@ -217,6 +222,271 @@ func genScenario(seed int64, id int, dir string, o genOpts) (*pipe.Scenario, err
 	return s, nil
 }
 
+// ------------------------------------------------------------------ corpus family "geometry" (PipelineBuf.tla)
+
+const readBuf = 128 * 1024 // batchers.ReadAheadBufferSize
+const gzProbe = 4096       // what gzip.NewReader's bufio pulls out of a file before the header check fails
+
+// fixedWidth pads (with spaces) or truncates content to exactly n bytes; the result never ends in CR.
+func fixedWidth(l []byte, n int) []byte {
+	out := make([]byte, n)
+	for i := range out {
+		out[i] = ' '
+	}
+	copy(out, l)
+	if n > 0 && out[n-1] == '\r' {
+		out[n-1] = '.'
+	}
+	return out
+}
+
+// pickProfile draws matcher / extract / ignore expressions and the pipeline parameters as genScenario does.
+func pickProfile(rng *rand.Rand, s *pipe.Scenario) profile {
+	p := profiles[rng.Intn(len(profiles))]
+	s.Matcher, s.Extract = p.m, p.extract[rng.Intn(len(p.extract))]
+	for _, e := range p.ignore {
+		if rng.Intn(3) == 0 {
+			s.Ignore = append(s.Ignore, e)
+		}
+	}
+	s.Batch = pick(rng, []int{1, 1, 2, 2, 3, 5, 17, 1000})
+	s.Workers = pick(rng, []int{1, 2, 2, 3, 8})
+	s.Readers = pick(rng, []int{1, 2, 3, 5})
+	s.Buffer = pick(rng, []int{1, 1, 2, 1000})
+	return p
+}
+
+// lateStart returns a ProcGate that delays the very first matcher call of the run: the batches the reader
+// produces meanwhile queue up in the batch channel, i.e. the pipeline holds their lines while the scanner
+// goes on reading (the "slow workers" schedule of PipelineBuf.tla).
+func lateStart(d time.Duration) func(int, []byte) {
+	var once sync.Once
+	return func(int, []byte) { once.Do(func() { time.Sleep(d) }) }
+}
+
+// genGeometry: every line of the main source has the same width w (terminator included), w divides the read
+// buffer, and the source is k buffers long plus/minus a few lines - so the k-th fill of the buffer ends
+// exactly on a line boundary (the buffer is full and completely consumed at the same time).  variant selects
+// wide distinct lines with full event logging (variant%3 == 0) or narrow lines from a small pool with the
+// summary record.  cli = for the rare binary (regular files only, no gate).
+func genGeometry(seed int64, id int, dir string, variant int, cli bool) (*pipe.Scenario, error) {
+	rng := rand.New(rand.NewSource(seed*1000003 + int64(id)*7919 + 17))
+	s := &pipe.Scenario{ID: id, Family: "geometry", Mode: "files"}
+	p := pickProfile(rng, s)
+	full := variant%3 == 0 && !cli
+	var w, k int
+	if full {
+		w = pick(rng, []int{256, 512, 1024, 2048})
+		k = 1 + rng.Intn(3)
+		if w == 256 {
+			k = 1 + rng.Intn(2)
+		}
+	} else {
+		w = pick(rng, []int{8, 16, 16, 32, 64, 128})
+		k = 1 + rng.Intn(3)
+		s.Log = "sum"
+	}
+	per := readBuf / w
+	extra := []int{1, 3, per / 2, per/2 + 1, 0, -1}[variant%6] // lines beyond (or short of) k full buffers
+	if variant >= 6 {
+		extra = pick(rng, []int{1, 2, 3, 5, per / 2, per - 1, 0, -1, -3})
+	}
+	n := k*per + extra
+	term := "\n"
+	if rng.Intn(4) == 0 {
+		term = "\r\n"
+	}
+	s.Batch = pick(rng, []int{1, 3, 100, 1000})
+	s.Buffer = pick(rng, []int{1, 2, 1000, 1000})
+	s.Workers = pick(rng, []int{1, 2, 8})
+	if !full && s.Batch == 1 && n > 30000 {
+		s.Batch = 3
+	}
+	if !cli {
+		s.ProcGate = lateStart(time.Duration(15+rng.Intn(25)) * time.Millisecond)
+		if n/s.Batch <= 60 {
+			s.ConsumerDelay = time.Duration(100+rng.Intn(400)) * time.Microsecond
+		}
+	}
+	binaryOK := p.m.Kind != "dissect"
+	var pool [][]byte
+	if !full {
+		for i := 0; i < 16; i++ {
+			pool = append(pool, fixedWidth(randLine(rng, binaryOK), w-len(term)))
+		}
+	}
+	lines := make([][]byte, n)
+	for i := range lines {
+		if full {
+			lines[i] = fixedWidth([]byte(fmt.Sprintf("%s %d %s", words[rng.Intn(len(words))], i%120, words[i%len(words)]+strconv.Itoa(i))), w-len(term))
+		} else {
+			lines[i] = pool[rng.Intn(len(pool))]
+		}
+	}
+	src := pipe.Source{Lines: lines}
+	for i, l := range lines {
+		src.Raw = append(src.Raw, l...)
+		if i == n-1 && extra > 0 && rng.Intn(3) == 0 {
+			break // no final terminator (never on the line that completes a buffer)
+		}
+		src.Raw = append(src.Raw, term...)
+	}
+	how := rng.Intn(5)
+	if cli {
+		how = 0
+	}
+	src.Name = filepath.Join(dir, fmt.Sprintf("s%d-g0.log", id))
+	switch {
+	case how <= 2: // regular file: every Read fills the buffer
+		if err := src.WriteFile(); err != nil {
+			return nil, err
+		}
+	case how == 3: // FIFO: the buffer fills up in pipe-sized pieces
+		src.FIFO = true
+		src.Chunks = pipe.RandomChunks(rng, len(src.Raw), pipe.ContentOpts{MaxChunks: 1 + rng.Intn(6)})
+		if err := pipe.MakeFIFO(src.Name); err != nil {
+			return nil, err
+		}
+	default: // scripted reader through the timer-flush path
+		s.Mode, s.FlushMs, src.Name = "hook", 2+rng.Intn(3), "<stdin>"
+		src.Chunks = pipe.RandomChunks(rng, len(src.Raw), pipe.ContentOpts{MaxChunks: 1 + rng.Intn(6), MaxDelayMs: 3, DelayFraction: 0.3})
+	}
+	s.Sources = append(s.Sources, src)
+	if s.Mode == "files" && rng.Intn(2) == 0 { // a second, ordinary source read concurrently
+		m := rng.Intn(40)
+		ls := make([][]byte, m)
+		for i := range ls {
+			ls[i] = randLine(rng, binaryOK)
+			if !full {
+				ls[i] = pool[rng.Intn(len(pool))]
+			}
+		}
+		o := pipe.Source{Lines: ls, Name: filepath.Join(dir, fmt.Sprintf("s%d-g1.log", id))}
+		o.Raw = pipe.BuildRaw(rng, ls, pipe.ContentOpts{})
+		if err := o.WriteFile(); err != nil {
+			return nil, err
+		}
+		s.Sources = append(s.Sources, o)
+		s.Readers = 1 + rng.Intn(2)
+	}
+	return s, nil
+}
+
+// ------------------------------------------------------------------ corpus family "gunzip" (PipelineIO.tla)
+
+// sizedLines returns lines whose byte stream (LF terminated, the last one unterminated when openEnd) is
+// exactly target bytes long.  draw yields the ordinary lines; the last line is a filler of the remaining length.
+func sizedLines(draw func() []byte, target int, openEnd bool) ([][]byte, []byte) {
+	var lines [][]byte
+	var raw []byte
+	for target-len(raw) > 80 {
+		l := draw()
+		lines = append(lines, l)
+		raw = append(append(raw, l...), '\n')
+	}
+	rem := target - len(raw)
+	if rem <= 0 {
+		return lines, raw
+	}
+	n := rem - 1
+	if openEnd {
+		n = rem
+	}
+	fill := bytes.Repeat([]byte{'7'}, n)
+	copy(fill, "GET ")
+	lines = append(lines, fill)
+	raw = append(raw, fill...)
+	if !openEnd {
+		raw = append(raw, '\n')
+	}
+	return lines, raw
+}
+
+var gzSizes = []int{0, 1, 9, 300, gzProbe - 1, gzProbe, gzProbe + 1, gzProbe + 700, 2 * gzProbe, 2*gzProbe + 1, 3*gzProbe - 5, 20000}
+
+var gzFirst = []int{gzProbe, gzProbe + 1, gzProbe - 1, 2 * gzProbe, 300, gzProbe + 700, 0, 20000, 9, 3*gzProbe - 5}
+
+// genGunzip: a set of regular files, some gzip-compressed, all read with -z.  The plain ones take the
+// fallback path of openFileToReader (probe, rewind, read from byte 0); their sizes straddle the probe window.
+func genGunzip(seed int64, id int, dir string, variant int) (*pipe.Scenario, error) {
+	rng := rand.New(rand.NewSource(seed*1000003 + int64(id)*7919 + 29))
+	s := &pipe.Scenario{ID: id, Family: "gunzip", Mode: "files", Gunzip: true}
+	p := pickProfile(rng, s)
+	binaryOK := p.m.Kind != "dissect"
+	nfiles := 2 + rng.Intn(4)
+	total := 0
+	// every third scenario draws its lines from a small pool and may have big files (summary record:
+	// the cost of validating it grows with lines x distinct keys); the others have distinct contents
+	// and files of at most three probe windows (full event log)
+	pooled := variant%3 == 2
+	var pool [][]byte
+	for i := 0; i < 20; i++ {
+		pool = append(pool, randLine(rng, binaryOK))
+	}
+	draw := func() []byte {
+		if pooled {
+			return pool[rng.Intn(len(pool))]
+		}
+		l := randLine(rng, binaryOK)
+		if len(l) > 0 && rng.Intn(2) == 0 { // longer lines: fewer records per byte of file
+			l = append(append(append([]byte{}, l...), ' '), bytes.Repeat([]byte{'p'}, rng.Intn(90))...)
+		}
+		return l
+	}
+	budget := 4 * gzProbe // bytes of distinct-content files per scenario (bounds the event log)
+	for f := 0; f < nfiles; f++ {
+		target := gzSizes[rng.Intn(len(gzSizes))]
+		if f == 0 { // the first (always plain) file walks through the sizes around the window
+			target = gzFirst[variant%len(gzFirst)]
+		} else if pooled && rng.Intn(4) == 0 {
+			target = readBuf + rng.Intn(3000)
+		}
+		if !pooled {
+			if target > 3*gzProbe {
+				target = 3*gzProbe - rng.Intn(100)
+			}
+			if target > budget {
+				target = []int{0, 1, 9, 300}[rng.Intn(4)]
+			}
+			budget -= target
+		}
+		lines, raw := sizedLines(draw, target, rng.Intn(3) == 0)
+		if target >= gzProbe && rng.Intn(3) == 0 && len(lines) > 3 {
+			// a line boundary exactly at the end of the probe window (whole lines inside it, no fragment)
+			lines, raw = sizedLines(draw, gzProbe, false)
+			l2, r2 := sizedLines(draw, target-gzProbe, rng.Intn(3) == 0)
+			lines, raw = append(lines, l2...), append(raw, r2...)
+		}
+		src := pipe.Source{Lines: lines, Raw: raw, Name: filepath.Join(dir, fmt.Sprintf("s%d-z%d.log", id, f))}
+		if f > 0 && rng.Intn(5) < 2 { // the first file is always plain
+			src.Gz = true
+			if rng.Intn(2) == 0 { // -z goes by content, not by name
+				src.Name += ".gz"
+			}
+			if len(raw) > 1 && rng.Intn(2) == 0 { // two concatenated gzip members
+				src.GzSplit = 1 + rng.Intn(len(raw)-1)
+			}
+		}
+		if f > 0 && rng.Intn(4) == 0 { // a named pipe: cannot be rewound after the probe (fix 0ceebc0)
+			src.FIFO = true
+			if !src.Gz {
+				src.Chunks = pipe.RandomChunks(rng, len(raw), pipe.ContentOpts{MaxChunks: 1 + rng.Intn(4)})
+			}
+			if err := pipe.MakeFIFO(src.Name); err != nil {
+				return nil, err
+			}
+		} else if err := src.WriteFile(); err != nil {
+			return nil, err
+		}
+		total += len(lines)
+		s.Sources = append(s.Sources, src)
+	}
+	if pooled && total > 1200 {
+		s.Log = "sum"
+	}
+	return s, nil
+}
+
 func cleanup(s *pipe.Scenario) {
 	for _, src := range s.Sources {
 		if strings.HasPrefix(src.Name, "/") {
@@ -236,6 +506,11 @@ type stats struct {
 	Classes     map[string]int `json:"classes"`
 	Events      int            `json:"events"`
 	Samples     []interface{}  `json:"samples"`
+	// corpus families of PipelineBuf.tla / PipelineIO.tla
+	Geometry      int            `json:"geometry"`       // geometry scenarios
+	BoundaryFills int            `json:"boundary_fills"` // fills of the read buffer that ended exactly on a line boundary with more input following
+	Gunzip        int            `json:"gunzip"`         // scenarios read with -z
+	GzWindow      map[string]int `json:"gz_window"`      // plain files read with -z by size: below / at / above the probe window; gz = gzip files
 }
 
 func describe(s *pipe.Scenario) vh.M {
@@ -244,12 +519,41 @@ func describe(s *pipe.Scenario) vh.M {
 		n += len(src.Lines)
 	}
 	return vh.M{"id": s.ID, "mode": s.Mode, "batch": s.Batch, "workers": s.Workers, "readers": s.Readers,
-		"buffer": s.Buffer, "matcher": s.Matcher, "extract": s.Extract, "ignore": s.Ignore, "files": len(s.Sources), "lines": n}
+		"buffer": s.Buffer, "matcher": s.Matcher, "extract": s.Extract, "ignore": s.Ignore, "files": len(s.Sources), "lines": n,
+		"family": s.Family, "gunzip": s.Gunzip}
 }
 
 func account(st *stats, s *pipe.Scenario, out *pipe.Outcome) {
 	st.Scenarios++
 	st.Modes[s.Mode]++
+	if st.GzWindow == nil {
+		st.GzWindow = map[string]int{}
+	}
+	if s.Family == "geometry" {
+		st.Geometry++
+		if n := len(s.Sources[0].Raw); n > 0 {
+			st.BoundaryFills += (n - 1) / readBuf
+		}
+	}
+	if s.Gunzip {
+		st.Gunzip++
+		for _, src := range s.Sources {
+			switch n := len(src.Raw); {
+			case src.FIFO && src.Gz:
+				st.GzWindow["fifo-gz"]++
+			case src.FIFO:
+				st.GzWindow["fifo-plain"]++
+			case src.Gz:
+				st.GzWindow["gz"]++
+			case n < gzProbe:
+				st.GzWindow["below"]++
+			case n == gzProbe:
+				st.GzWindow["at"]++
+			default:
+				st.GzWindow["above"]++
+			}
+		}
+	}
 	for f, src := range s.Sources {
 		st.Lines += len(src.Lines)
 		for _, l := range src.Lines {
@@ -276,8 +580,12 @@ func account(st *stats, s *pipe.Scenario, out *pipe.Outcome) {
 
 // runWithRetry runs a scenario; a hang is re-run once (fresh inputs) before it is reported.
 func runWithRetry(seed int64, id int, dir string, o genOpts, log *pipe.EventLog, st *stats, note func(string)) error {
+	return runGenWithRetry(func() (*pipe.Scenario, error) { return genScenario(seed, id, dir, o) }, seed, id, dir, log, st, note)
+}
+
+func runGenWithRetry(gen func() (*pipe.Scenario, error), seed int64, id int, dir string, log *pipe.EventLog, st *stats, note func(string)) error {
 	for attempt := 0; attempt < 2; attempt++ {
-		s, err := genScenario(seed, id, dir, o)
+		s, err := gen()
 		if err != nil {
 			return err
 		}
@@ -331,6 +639,8 @@ func cmdTrace(args []string) error {
 	first := fs.Int("first", 1, "first scenario id")
 	huge := fs.Int("huge", 0, "scenarios with -hugelines lines per file, 8 workers, summary logging (lost counter updates)")
 	hugeLines := fs.Int("hugelines", 20000, "")
+	geom := fs.Int("geom", 0, "buffer-geometry scenarios (PipelineBuf.tla)")
+	gz := fs.Int("gz", 0, "mixed plain/gzip file sets read with -z (PipelineIO.tla)")
 	fs.Parse(args)
 	log, err := pipe.NewEventLog(*outp)
 	if err != nil {
@@ -356,6 +666,20 @@ func cmdTrace(args []string) error {
 	}
 	for i := 0; i < *huge; i++ {
 		if err := runWithRetry(seed, *first+*n+i, *dir, genOpts{huge: *hugeLines}, log, st, note); err != nil {
+			return err
+		}
+	}
+	next := *first + *n + *huge
+	for i := 0; i < *geom; i++ {
+		id, v := next+i, i
+		if err := runGenWithRetry(func() (*pipe.Scenario, error) { return genGeometry(seed, id, *dir, v, false) }, seed, id, *dir, log, st, note); err != nil {
+			return err
+		}
+	}
+	next += *geom
+	for i := 0; i < *gz; i++ {
+		id, v := next+i, i
+		if err := runGenWithRetry(func() (*pipe.Scenario, error) { return genGunzip(seed, id, *dir, v) }, seed, id, *dir, log, st, note); err != nil {
 			return err
 		}
 	}
@@ -394,7 +718,15 @@ func cmdCLI(args []string) error {
 		if i == 1 {
 			o.big, o.maxLines = true, 10
 		}
-		s, err := genScenario(seed, id, *dir, o)
+		var s *pipe.Scenario
+		switch {
+		case i%4 == 2: // plain and gzip files mixed, read with -z
+			s, err = genGunzip(seed, id, *dir, i/4)
+		case i%8 == 5: // buffer geometry through the binary
+			s, err = genGeometry(seed, id, *dir, 1+i/8, true)
+		default:
+			s, err = genScenario(seed, id, *dir, o)
+		}
 		if err != nil {
 			return err
 		}
@@ -418,6 +750,9 @@ func cmdCLI(args []string) error {
 		argv = append(argv, s.Matcher.CLIArgs()...)
 		for _, ig := range s.Ignore {
 			argv = append(argv, "-i", ig)
+		}
+		if s.Gunzip {
+			argv = append(argv, "-z")
 		}
 		cmd := exec.Command(*rare)
 		abort := make(chan struct{})
